@@ -397,6 +397,10 @@ def call_bound(E, b, args, kw, st, out, node):
         raise OutOfSubset("concrete list method %s" % m)
     if isinstance(r, VObj):
         E.notes.append("opaque method call .%s() on an opaque object" % m)
+        if m in ("append", "extend", "insert", "remove", "pop", "clear", "sort", "reverse", "update", "add", "discard", "setdefault",
+                 "popitem", "fill", "resize", "put", "itemset") and st.ghost.get("$mutated") is not None:
+            # the in-place mutators of the built-in containers (and ndarray): the receiver - and every alias of it - changes
+            st.ghost["$mutated"] = z3.Store(st.ghost["$mutated"], r.t, z3.BoolVal(True))
         E.may_raise_any(st, out, node, m)
         f = z3.Function("py_meth_%s_%d" % (m, len(args)), *([PyObj] * (len(args) + 2)))
         return [(st, VObj(f(r.t, *[E.to_obj(a) for a in args])))]
